@@ -212,10 +212,38 @@ def make_message(rng, b, v):
     return m, "ctor", None
 
 
+def zeroed(v):
+    """the same shape with every scalar leaf at its default: in place, such a value is PRESENCE only"""
+    k = v[0]
+    if k == "i":
+        return ("i", 0)
+    if k == "b":
+        return ("b", False)
+    if k in ("f32", "f64"):
+        return (k, 0)
+    if k in ("s", "y"):
+        return (k, b"")
+    if k == "l":
+        return ("l", [zeroed(x) for x in v[1]])
+    if k == "D":
+        return ("D", [(a, zeroed(x)) for a, x in v[1]])
+    if k == "c":
+        return ("c", v[1], {i: zeroed(x) for i, x in v[2].items()})
+    return v
+
+
+def build_in_place(b, v, sd):
+    """Cls() filled through nested access / container mutation only (props.c09.fill_inplace): the holders are not marked"""
+    import random
+    from props.c09 import fill_inplace
+    m = b.classes[v[1]]()
+    return m, fill_inplace(m, b, v[1], v, random.Random(sd))
+
+
 def run(chk, drv):
     quick = chk.tier == "quick"
     rng = chk.rng
-    chk.extra["rule"] = ("messages built by constructors, decoded from bytes (with unknown fields) and loaded from dicts; a random sequence of observers (attribute reads incl. "
+    chk.extra["rule"] = ("messages built by constructors, filled in place through nested access (also with default values only: presence without content), decoded from bytes (with unknown fields) and loaded from dicts; a random sequence of observers (attribute reads incl. "
                          "lazily defaulted nested messages, bytes, len, ==, bool, repr, to_dict, to_json, to_pydict, is_set, which_one_of), then copy / deepcopy / pickle; every mutable "
                          "path of a deep / unpickled copy is mutated and the original re-checked. non-trivial = message with ≥ 1 set field; distinct by (schema, value, observer sequence)")
     nb = 50 if quick else 500
@@ -227,18 +255,31 @@ def run(chk, drv):
         for v in b.values:
             ci = v[1]
             m, how, data = make_message(rng, b, v)
+            raw = sd = None
+            if rng.random() < 0.25:
+                vz, sd = (zeroed(v) if rng.random() < 0.5 else v), rng.getrandbits(32)
+                try:
+                    m, raw = build_in_place(b, vz, sd)
+                    how, data, v = "inplace", None, vz
+                except Exception as e:
+                    chk.count("inplace_skipped_" + type(e).__name__)
+                    raw = None
             names = [rng.choice(list(OBSERVERS)) for _ in range(rng.randint(1, 6))]
             inp = {"schema": b.describe(), "value": bpgen.term(v), "how": how, "data": data.hex() if data else None, "observers": names}
+            if raw:
+                inp["built_in_place"], inp["fill_seed"] = raw, sd
             chk.count("built_" + how)
             for n in names:
                 chk.count("observer_" + n)
             chk.case(b.schema_line() + bpgen.term(v) + how + ",".join(names), not W.is_trivial(v), {"value": bpgen.term(v), "how": how, "observers": names})
             oracle(chk, inp, m, b.schema, ci, b.classes, rng, names)
             # correspondence: the same observers and copies through the model, lock-step
-            if drv and how in ("ctor", "bytes", "bytes+unknown"):
+            if drv and how in ("ctor", "bytes", "bytes+unknown", "inplace"):
                 m2 = bpgen.to_py(v, b.classes)
                 ops = []
-                if data is not None:
+                if raw:
+                    m2, init = build_in_place(b, v, sd)
+                elif data is not None:
                     m2 = b.classes[ci]()
                     m2.parse(data)
                     init, ops = "c %d 0" % ci, ["parse %s" % W.hexs(data)]
@@ -339,6 +380,9 @@ def replay(chk, rp):
         m = classes[ci]().parse(bytes.fromhex(inp["data"]))
     elif inp.get("how") == "dict":
         m = classes[ci]().from_dict(m.to_dict())
+    elif inp.get("how") == "inplace":
+        import types
+        m, _ = build_in_place(types.SimpleNamespace(classes=classes, schema=schema), v, inp["fill_seed"])
     c = type(chk)(chk.pid, "quick", 0)
     oracle(c, inp, m, schema, ci, classes, c.rng, inp["observers"])
     return bool(c.oracle_failures)
